@@ -170,7 +170,10 @@ def split_iter(src, sep=None, maxsplit=None):
     split_count = 0
     for s in src:
         if maxsplit is not None and split_count >= maxsplit:
-            def sep_func(x): return False
+            if cur_group or sep is not None:
+                # the rest is the last group; like str.split(), sep=None
+                # still skips the separators in front of it
+                def sep_func(x): return False
         if sep_func(s):
             if sep is None and not cur_group:
                 # If sep is none, str.split() "groups" separators
